@@ -15,6 +15,7 @@ type ExchangeJSightSchema struct {
 	*jschema.JSchema
 
 	onceCompile            sync.Once
+	compileErr             error
 	catalogUserTypes       *UserTypes
 	disableExchangeExample bool
 
@@ -72,19 +73,17 @@ func (e *ExchangeJSightSchema) Notation() notation.SchemaNotation {
 	return notation.SchemaNotationJSight
 }
 
-func (e *ExchangeJSightSchema) Compile() (err error) {
+func (e *ExchangeJSightSchema) Compile() error {
+	// The outcome is kept: every call reports it, not only the one that ran the compilation.
 	e.onceCompile.Do(func() {
-		err = e.buildContent()
-		if err != nil {
+		e.compileErr = e.buildContent()
+		if e.compileErr != nil {
 			return
 		}
 
-		err = e.processAllOf(e.exchangeUsedUserTypes)
-		if err != nil {
-			return
-		}
+		e.compileErr = e.processAllOf(e.exchangeUsedUserTypes)
 	})
-	return err
+	return e.compileErr
 }
 
 func (e *ExchangeJSightSchema) buildContent() error {
